@@ -8,6 +8,8 @@ impl Complex::<f64> {
         let theta = self.arg();
         let x = sqrt_abs * f64::cos( 0.5 * theta );
         let y = sqrt_abs * f64::sin( 0.5 * theta );
+        #[cfg(ohsl_verif)]
+        crate::verif_hooks::record( 0, [ self.real.to_bits(), self.imag.to_bits(), 0, 0 ], [ x.to_bits(), y.to_bits() ] );
         Complex::new( x, y )
     }
 
@@ -18,6 +20,8 @@ impl Complex::<f64> {
         let theta = self.arg();
         let x = r2.powf( 0.5 * w.real ) * f64::exp( -w.imag * theta );
         let y = w.real * theta + 0.5 * w.imag * f64::ln( r2 );
+        #[cfg(ohsl_verif)]
+        crate::verif_hooks::record( 1, [ self.real.to_bits(), self.imag.to_bits(), w.real.to_bits(), w.imag.to_bits() ], [ ( x * f64::cos(y) ).to_bits(), ( x * f64::sin(y) ).to_bits() ] );
         Complex::new( x * f64::cos(y), x * f64::sin(y) )
     }
 
@@ -57,6 +61,8 @@ impl Complex::<f64> {
     pub fn polar(r: f64, theta: f64) -> Complex::<f64> {
         let real = r * theta.cos();
         let imag = r * theta.sin();
+        #[cfg(ohsl_verif)]
+        crate::verif_hooks::record( 2, [ r.to_bits(), theta.to_bits(), 0, 0 ], [ real.to_bits(), imag.to_bits() ] );
         Complex::new( real, imag )
     }
 }
